@@ -614,6 +614,7 @@ def normalize_function(fn, resolver=None, list_attrs=frozenset(), consts=None, c
         changed = True
     # N17, N15 / N16
     changed |= _paired_temps(new)
+    changed |= _sink_consumer(new)
     ch15 = _return_temps(new)
     changed |= ch15
     ex = _Exprs(consts, class_consts)
@@ -768,6 +769,67 @@ def _paired_temps(fn):
             del stmts[where[0]]
             changed[0] = True
     return changed[0]
+
+
+def _sink_consumer(fn):
+    """N24  if c: ..; t = A  else: ..; t = B        if c: ..; if A == -1: raise     (t read nowhere else: the one
+            if t == -1: raise                  ->   else: ..; if B == -1: raise      statement that reads it is
+                                                                                     duplicated into the arms)"""
+    changed = [False]
+    params = _params(fn)
+
+    def count(name, ctx):
+        return sum(1 for n in _walk_scope(fn) if isinstance(n, ast.Name) and n.id == name and isinstance(n.ctx, ctx))
+
+    def last_def(stmts):
+        if stmts and isinstance(stmts[-1], ast.Assign) and len(stmts[-1].targets) == 1 and \
+                isinstance(stmts[-1].targets[0], ast.Name):
+            return stmts[-1].targets[0].id
+        return None
+
+    def block(stmts):
+        i = 0
+        while i + 1 < len(stmts):
+            s1, s2 = stmts[i], stmts[i + 1]
+            if isinstance(s1, ast.If) and s1.orelse and last_def(s1.body) is not None and \
+                    last_def(s1.body) == last_def(s1.orelse):
+                t = last_def(s1.body)
+                part = s2.test if isinstance(s2, ast.If) else s2 if isinstance(s2, (ast.Assign, ast.Expr, ast.Return)) \
+                    else None
+                small = isinstance(s2, (ast.Assign, ast.Expr, ast.Return)) or \
+                    (isinstance(s2, ast.If) and not s2.orelse and len(s2.body) == 1 and isinstance(s2.body[0], ast.Raise))
+                if part is not None and small and t not in params and count(t, ast.Store) == 2 and \
+                        count(t, ast.Load) == 1 and \
+                        sum(1 for n in ast.walk(part) if isinstance(n, ast.Name) and n.id == t) == 1 and \
+                        not any(isinstance(n, (ast.Lambda, ast.ListComp, ast.GeneratorExp, ast.SetComp, ast.DictComp))
+                                for n in ast.walk(part)) and \
+                        _pure_value(s1.body[-1].value) and _pure_value(s1.orelse[-1].value):
+                    for arm in (s1.body, s1.orelse):
+                        val = arm[-1].value
+                        cons = _Subst({t: val}).visit(copy.deepcopy(s2))
+                        arm[-1:] = [cons]
+                    del stmts[i + 1]
+                    changed[0] = True
+                    continue
+            i += 1
+        for s_ in stmts:
+            if isinstance(s_, (ast.FunctionDef, ast.AsyncFunctionDef, ast.ClassDef)):
+                continue
+            for fld in ('body', 'orelse', 'finalbody'):
+                sub = getattr(s_, fld, None)
+                if isinstance(sub, list):
+                    block(sub)
+            for h in getattr(s_, 'handlers', []):
+                block(h.body)
+    block(fn.body)
+    return changed[0]
+
+
+def _pure_value(e):
+    """a value whose evaluation can be moved past nothing at all: constants and attribute paths"""
+    if isinstance(e, ast.UnaryOp) and isinstance(e.op, ast.USub):
+        e = e.operand
+    return isinstance(e, ast.Constant) or _is_path(e)
 
 
 def _return_temps(fn):
@@ -1002,6 +1064,19 @@ class _Exprs(ast.NodeTransformer):
 
     def visit_Compare(self, node):
         self.generic_visit(node)
+        # N8  np.count_nonzero(E) > 0 / != 0 / >= 1  ->  E.any()     ( == 0 / < 1  ->  not E.any() )
+        if len(node.ops) == 1 and isinstance(node.left, ast.Call) and \
+                ast.unparse(node.left.func) in ('np.count_nonzero', 'numpy.count_nonzero') and \
+                len(node.left.args) == 1 and not node.left.keywords and isinstance(node.comparators[0], ast.Constant) \
+                and not isinstance(node.comparators[0].value, bool) and node.comparators[0].value in (0, 1):
+            k, op = node.comparators[0].value, type(node.ops[0])
+            pos = (k == 0 and op in (ast.Gt, ast.NotEq)) or (k == 1 and op is ast.GtE)
+            neg = (k == 0 and op in (ast.Eq, ast.LtE)) or (k == 1 and op is ast.Lt)
+            if pos or neg:
+                self.changed = True
+                call = ast.Call(func=ast.Attribute(value=node.left.args[0], attr='any', ctx=ast.Load()), args=[],
+                                keywords=[])
+                return ast.copy_location(call if pos else ast.UnaryOp(op=ast.Not(), operand=call), node)
         # 0 == x.ub  ->  x.ub == 0  (also outside tests: element-wise comparisons mirror exactly)
         if len(node.ops) == 1 and isinstance(node.left, ast.Constant) and \
                 not isinstance(node.comparators[0], ast.Constant):
